@@ -1,4 +1,13 @@
 #!/bin/bash
-# check_all.sh [--update-baseline]: run every property that has a props file; one summary line each
+# check_all.sh [--update-baseline]: run every property that has a props file; one summary line each.
+# Exit status 1 if any check reports a violation or an engine error (so that `check_all.sh && git commit` refuses a red tree).
 cd /verif
-for f in props/C*.json; do p=$(basename $f .json); ./check $p "$@" 2>&1 | grep -v "^WARNING" | grep "^property\|^VIOLATION\|^UNDECIDED\|^ENGINE" | cut -c1-210 | head -4; done
+bad=0
+for f in props/C*.json; do
+  p=$(basename $f .json)
+  out=$(./check $p "$@" 2>&1); rc=$?
+  echo "$out" | grep -v "^WARNING" | grep "^property\|^VIOLATION\|^UNDECIDED\|^ENGINE" | cut -c1-210 | head -4
+  [ $rc -ne 0 ] && bad=1
+done
+[ $bad -ne 0 ] && echo "CHECK_ALL: RED (at least one check exited non-zero)" >&2
+exit $bad
